@@ -79,6 +79,69 @@ def _string_building(N, node, p, depth=0) -> bool:
     return False
 
 
+_ATOM_MEMO: typing.Dict[typing.Any, typing.Any] = {}
+
+
+def _path_atoms(p):
+    key = tuple(id(n) for n, _ in p.cnodes) + tuple(pol for _, pol in p.cnodes)
+    hit = _ATOM_MEMO.get(key)
+    if hit is not None and hit[0] is p.cnodes:
+        return hit[1]
+    out = set()
+    for n, pol in p.cnodes:
+        if isinstance(n, str) or n is None:
+            continue
+        try:
+            for a, ap in j2front.conj_terms(n, pol):
+                with j2front.xs_with(None):
+                    out.add((xs(a), ap))
+        except Exception:
+            continue
+    if len(_ATOM_MEMO) > 50000:
+        _ATOM_MEMO.clear()
+    _ATOM_MEMO[key] = (p.cnodes, out)
+    return out
+
+
+def _decide_condexprs(N, e, p):
+    """`a if c else b` inside a printed expression, where the path already decides c: the branch taken (a hoisted
+    `{% set w = x.bits if t is D else 0 %}` printed under `{% if t is D %}` is x.bits)"""
+    import copy
+    atoms = _path_atoms(p) | set(p.conds)
+
+    def decided(ce):
+        c, pol = ce.test, True
+        while isinstance(c, N.Not):
+            c, pol = c.node, not pol
+        k = xs(c)
+        if (k, pol) in atoms:
+            return ce.expr1
+        if (k, not pol) in atoms and ce.expr2 is not None:
+            return ce.expr2
+        return None
+
+    if not any(decided(ce) is not None for ce in e.find_all(N.CondExpr)):
+        return e
+    e = copy.deepcopy(e)
+    holder = N.Tuple([e], "load")
+    for _ in range(4):
+        changed = False
+        for parent in [holder] + list(holder.find_all(N.Node)):
+            for field in parent.fields:
+                v = getattr(parent, field, None)
+                if isinstance(v, N.CondExpr) and decided(v) is not None:
+                    setattr(parent, field, decided(v))
+                    changed = True
+                elif isinstance(v, list):
+                    for i, x in enumerate(v):
+                        if isinstance(x, N.CondExpr) and decided(x) is not None:
+                            v[i] = decided(x)
+                            changed = True
+        if not changed:
+            break
+    return holder.items[0]
+
+
 def _inline_value(N, node, p, depth=0):
     """the expression to print instead of a variable bound to `node`, or None to keep the variable opaque"""
     if depth > 6 or _is_unique_name(N, node):
@@ -98,6 +161,12 @@ def _inline_value(N, node, p, depth=0):
         if (key, pol) in p.conds:
             return _inline_value(N, node.expr1, p, depth + 1) or node.expr1
         if (key, not pol) in p.conds:
+            return _inline_value(N, node.expr2, p, depth + 1) or node.expr2
+        # the atoms a compound path condition implies (`a and b` taken: a, b; `a or b` not taken: not a, not b)
+        atoms = _path_atoms(p)
+        if (key, pol) in atoms:
+            return _inline_value(N, node.expr1, p, depth + 1) or node.expr1
+        if (key, not pol) in atoms:
             return _inline_value(N, node.expr2, p, depth + 1) or node.expr2
         return None
     if _string_building(N, node, p):
@@ -259,6 +328,8 @@ def render_paths(N, nodes, limit: int = 512, for_zero: bool = False, subst=None,
                 break
             e = b
             hops += 1
+        if p is not None and p.cnodes and any(True for _ in e.find_all(N.CondExpr)):
+            e = _decide_condexprs(N, e, p)
         with j2front.xs_with(_sub_of(N, p) if p is not None else None):
             key = xs(e)
         if key in names:  # the same expression gets the same identifier everywhere
@@ -339,20 +410,32 @@ def render_paths(N, nodes, limit: int = 512, for_zero: bool = False, subst=None,
                 out = []
                 neg: typing.Tuple = ()
                 branches = [(node.test, node.body)] + [(e.test, e.body) for e in node.elif_]
-                def feasible(p, extra):
+                def feasible(p, extra, extra_nodes=()):
                     have = set(p.conds)
-                    return not any((e, not pol) in have for e, pol in extra)
+                    if any((e, not pol) in have for e, pol in extra):
+                        return False
+                    # a compound condition against the atoms the path already implies: `a and b` cannot be taken after `a` was refused
+                    if extra_nodes and p.cnodes:
+                        atoms = _path_atoms(p) | have
+                        for n_, pol_ in extra_nodes:
+                            try:
+                                for a_, ap_ in j2front.conj_terms(n_, pol_):
+                                    if (xs(a_), not ap_) in atoms:
+                                        return False
+                            except Exception:
+                                continue
+                    return True
 
                 for p in paths:
                     negs, negn = (), ()
                     for test, body in branches:
                         (cs, cn) = cond_of(p, test, True)
                         extra = negs + (cs,)
-                        if feasible(p, extra):
+                        if feasible(p, extra, negn + (cn,)):
                             out.extend(run(body, [TPath(p.parts, p.conds + extra, p.ph, p.env, p.cnodes + negn + (cn,))]))
                         (ns, nn) = cond_of(p, test, False)
                         negs, negn = negs + (ns,), negn + (nn,)
-                    if feasible(p, negs):
+                    if feasible(p, negs, negn):
                         q = TPath(p.parts, p.conds + negs, p.ph, p.env, p.cnodes + negn)
                         out.extend(run(node.else_, [q]) if node.else_ else [q])
                 paths = out
